@@ -944,13 +944,22 @@ class Executor:
         return out
 
     def dict_tail_lookup(self, st: State, c: Ref, o: DictObj, k) -> List[Res]:
-        """lookup in a dict whose entries are a symbolic sequence of (key, value) pairs: the hit index is a Skolem
-        constant"""
-        if o.entries or len(o.tail.segs) != 1 or not isinstance(o.tail.segs[0], L.MapSeg) \
-                or not o.tail.segs[0].body.is_concrete() or len(o.tail.segs[0].body.segs) != 1:
+        """lookup in a dict whose entries are a symbolic sequence of (possibly guarded) (key, value) pairs: the hit
+        index is a Skolem constant"""
+        if o.entries or len(o.tail.segs) != 1 or not isinstance(o.tail.segs[0], L.MapSeg):
             raise Unsupported("lookup in a dict of this shape")
         seg = o.tail.segs[0]
-        pair = seg.body.segs[0].v
+        alts: List[Tuple[Any, Any]] = []
+
+        def collect(lt: L.LT, cond) -> None:
+            for x in lt.segs:
+                if isinstance(x, L.Unit):
+                    alts.append((cond, x.v))
+                elif isinstance(x, L.Guard):
+                    collect(x.lt, z3.And(cond, x.cond))
+                else:
+                    raise Unsupported("lookup in a dict of this shape")
+        collect(seg.body, z3.BoolVal(True))
         out: List[Res] = []
         for s, hit in self.branch(st, self.contains(st, k, c)):
             if not hit:
@@ -959,9 +968,12 @@ class Executor:
             j = self.fresh_const("hit", z3.IntSort())
             self.skolems.append(j)
             s.assume(z3.And(j >= 0, j < seg.n))
-            pj = self.subst(s, pair, seg.ivar, j)
-            s.assume(self.eq(s, pj.items[0], k))
-            out.append((s, pj.items[1]))
+            for cond, pair in alts:
+                s2 = s.fork() if len(alts) > 1 else s
+                pj = self.subst(s2, pair, seg.ivar, j)
+                s2.assume(z3.And(z3.substitute(cond, (seg.ivar, j)), self.eq(s2, pj.items[0], k)))
+                if len(alts) == 1 or self.feasible(s2.pc):
+                    out.append((s2, pj.items[1]))
         return out
 
     def concrete_int(self, k) -> int:
